@@ -91,6 +91,10 @@ func sameValue(a, b any) bool {
 	return reflect.DeepEqual(a, b)
 }
 
+// sameOrDeep: the very value, or - for containers - an equal copy of it (an implementation may
+// keep or hand out its own copy of a map or slice; the statements speak of equal answers).
+func sameOrDeep(a, b any) bool { return sameValue(a, b) || deepEq(a, b) }
+
 func mapsSame(a, b map[string]any) string {
 	if len(a) != len(b) {
 		return fmt.Sprintf("sizes differ: %d vs %d", len(a), len(b))
@@ -169,7 +173,7 @@ func storeAgrees(s *flyt.SharedStore, model map[string]any, universe []string) s
 		if okk != inModel {
 			return fmt.Sprintf("Get(%q) ok=%v, model %v", k, okk, inModel)
 		}
-		if inModel && !sameValue(got, want) {
+		if inModel && !sameOrDeep(got, want) {
 			return fmt.Sprintf("Get(%q)=%#v, model %#v", k, got, want)
 		}
 		if !inModel && got != nil {
